@@ -29,6 +29,7 @@ type vfC04Args struct {
 	Targeted   bool // run the deterministic park/release orderings
 	GC         bool // C05: one GC pass beside the clients
 	CheckVHash bool
+	NoDumper   bool // C05 race build: the hint dumper loop is left out (see DESIGN.md, race policy)
 }
 
 var vfTick int64
@@ -182,6 +183,7 @@ type vfC04Case struct {
 	Seed    uint64         `json:"seed"`
 	Level   int            `json:"level"`
 	Kind    string         `json:"kind"`
+	MaxVal  int            `json:"max_val,omitempty"` // 0 = sizes up to 5000
 }
 
 func vfC04Config(r *ref.Rand) store.VFConfig {
@@ -229,7 +231,9 @@ func vfRunClients(sut *vfSUT, sched *vfc.Sched, c *vfC04Case, r *ref.Rand, extra
 				return
 			default:
 			}
-			store.VFDumpHints(hs)
+			if c.Kind != "no-dumper" {
+				store.VFDumpHints(hs)
+			}
 			time.Sleep(100 * time.Microsecond)
 		}
 	}()
@@ -249,7 +253,11 @@ func vfRunClients(sut *vfSUT, sched *vfc.Sched, c *vfC04Case, r *ref.Rand, extra
 				key := c.Keys[cr.Intn(len(c.Keys))]
 				switch x := cr.Intn(100); {
 				case x < 40:
-					cl.set(key, []string{"random", "text", "periodic"}[cr.Intn(3)], cr.Pick(30, 200, 300, 700, 5000))
+					size := cr.Pick(30, 200, 300, 700, 5000)
+					if c.MaxVal > 0 && size > c.MaxVal {
+						size = cr.Range(60, c.MaxVal)
+					}
+					cl.set(key, []string{"random", "text", "periodic"}[cr.Intn(3)], size)
 				case x < 52:
 					cl.del(key)
 				case x < 87:
@@ -268,6 +276,11 @@ func vfRunClients(sut *vfSUT, sched *vfc.Sched, c *vfC04Case, r *ref.Rand, extra
 		all = append(all, cl.ops...)
 	}
 	return all
+}
+
+func vfRunClientsNoDumper(sut *vfSUT, sched *vfc.Sched, c *vfC04Case, r *ref.Rand) []lincheck.Op {
+	c.Kind = "no-dumper"
+	return vfRunClients(sut, sched, c, r, nil)
 }
 
 func vfJudge(res *vfc.Result, id, prefix string, c interface{}, keys []string, all []lincheck.Op, tolerateReadErrors bool) (violated bool) {
